@@ -38,7 +38,8 @@ ASSUMPTIONS = [
     "one registry, one thread",
 ]
 RULE = ("histories of 1..12 operations over namespaces {'', ns, ns.sub, _w, ns._w}, names {a,b,c}, three bodies, compat hashes, "
-        "two wrapper kinds with default or explicit wrapper names: define / redefine (same or new body) / wrap / wrap again / "
+        "two wrapper kinds with default or explicit wrapper names, defined in a module that sets redun_namespace = lib (so a wrapper of a "
+        "top-level task must keep the EMPTY namespace): define / redefine (same or new body) / wrap / wrap again / "
         "define at a hidden name / registry.rename (also onto occupied names, also breaking a wrapper's pointer), interleaved with read-only "
         "queries (get(hash=) of a registered / formerly registered / never registered hash, get(task_name=) of a present / absent name, "
         "iteration); after every "
@@ -56,6 +57,10 @@ TECHNIQUE = "Lean 4 invariant proof over a registry state machine + differential
 
 MODULE_SRC = '''
 from redun.task import wraps_task
+
+# the wrapper decorators live in a module with its own default namespace: a wrapper must still keep the wrapped task's
+# visible namespace, the empty one included (it must not be inferred again from here)
+redun_namespace = "lib"
 
 
 def body0(x):
@@ -92,7 +97,7 @@ def make_v(wrapper_name=None):
     return _v
 '''
 
-NAMESPACES = ["", "ns", "ns.sub", "_w", "ns._w", "x"]
+NAMESPACES = ["", "ns", "ns.sub", "_w", "ns._w", "x", "lib"]
 NAMES = ["a", "b", "c"]
 WNAMES = [None, None, None, "x", "_w", "ns"]
 
@@ -164,7 +169,7 @@ def gen_op(rng, real):
         return gen_query(rng, real)
     k = rng.random()
     if not keys or k < 0.38:
-        ns = rng.choice(NAMESPACES[:3]) if rng.random() < 0.8 else rng.choice(NAMESPACES)
+        ns = rng.choice(["", "", "ns", "ns.sub", "lib"]) if rng.random() < 0.8 else rng.choice(NAMESPACES)
         name = rng.choice(NAMES)
         if rng.random() < 0.15:
             return ("defc", ns, name, rng.choice(["H1", "H2"]))
@@ -378,6 +383,8 @@ def run_history(ctx, mod, ops_or_len, rng=None):
 
 
 CORPUS = [
+    # top-level task (empty namespace) wrapped by a decorator from a module with redun_namespace = "lib"; an existing lib.f stays
+    [("def", "lib", "a", 1), ("def", "", "a", 0), ("wrap", "a", "w", None), ("getn", "a"), ("getn", "lib.a"), ("wrap", "a", "v", None)],
     # read-only queries: hash of a redefined (no longer registered) task, a never registered hash, then more definitions
     [("def", "", "a", 0), ("def", "", "a", 1), ("geth", 0), ("geth", 1), ("geth", None), ("getn", "a"), ("getn", "zz"), ("iter",),
      ("def", "", "b", 0), ("wrap", "a", "w", None), ("geth", 0)],
